@@ -1,0 +1,6 @@
+//go:build verif && unix && !tinygo
+
+package go9p
+
+// VerifOmode2uflags exposes the open-flag translation of the Unix file server.
+func VerifOmode2uflags(mode uint8) int { return omode2uflags(mode) }
